@@ -54,6 +54,7 @@ struct FaultRun {
     open_failed: bool,
     monitored_ops: u64,
     hit: Option<(&'static str, String)>,
+    kinds: Vec<(&'static str, String)>,
 }
 
 fn settle(db: &DB) {
@@ -65,7 +66,7 @@ fn run_with_fault(h: &History, plan: Option<FaultPlan>) -> FaultRun {
 }
 
 fn run_with_fault_drv(h: &History, plan: Option<FaultPlan>, drv_path: Option<&str>) -> FaultRun {
-    let mut out = FaultRun { sig: None, calls: 0, fired: 0, ok_writes: 0, err_writes: 0, err_reads: 0, open_failed: false, monitored_ops: 0, hit: None };
+    let mut out = FaultRun { sig: None, calls: 0, fired: 0, ok_writes: 0, err_writes: 0, err_reads: 0, open_failed: false, monitored_ops: 0, hit: None, kinds: vec![] };
     let fs = SimFs::new();
     let mut cfg = h.cfg.clone();
     fs.reset_calls();
@@ -261,6 +262,7 @@ fn run_with_fault_drv(h: &History, plan: Option<FaultPlan>, drv_path: Option<&st
     // level >= 1. A failure to open a level-0 input is reported by the unchanged code
     // (CompactionManifest::make_merging_iterator returns it), so it is not part of the finding.
     out.hit = hit.clone();
+    out.kinds = fs.call_kinds();
     let fault_levels = fault_levels.unwrap_or(levels_now);
     let hit_level: Option<usize> = hit.as_ref().and_then(|(_, path)| {
         let name = path.rsplit('/').next().unwrap_or("");
@@ -297,7 +299,21 @@ fn run_with_fault_drv(h: &History, plan: Option<FaultPlan>, drv_path: Option<&st
             // if nothing was ever acknowledged and the very first open failed half-way the
             // directory may be unusable; that is still a loss of nothing
             if out.ok_writes > 0 || !out.open_failed {
-                out.sig = Some(("c08:reopen-after-fault-fails".into(), format!("after the fault was removed the database does not open: {e}")));
+                // the history of the manifest and CURRENT (the run depends on background timing and may
+                // not replay: keep the evidence with the report)
+                let ops = fs.oplog();
+                let mut lines: Vec<String> = ops.iter().enumerate().map(|(i, op)| (i, crate::crash::op_desc_pub(&fs, op))).filter(|(_, d)| d.contains("MANIFEST") || d.contains("CURRENT") || d.contains(".dbtemp")).map(|(i, d)| format!("#{i} {d}")).collect();
+                let n = lines.len();
+                if n > 14 {
+                    lines = lines.split_off(n - 14);
+                }
+                if let Ok(dir) = std::env::var("VERIF_DUMP_DIR") {
+                    let all: Vec<String> = ops.iter().enumerate().map(|(i, op)| format!("#{i} {}", crate::crash::op_desc_pub(&fs, op))).collect();
+                    let calls: Vec<String> = fs.call_kinds().iter().enumerate().map(|(i, (k, p))| format!("{i} {k} {p}")).collect();
+                    let _ = std::fs::write(format!("{dir}/oplog_{}.txt", std::process::id()), all.join("\n") + "\n--- calls\n" + &calls.join("\n"));
+                }
+                let hit = plan.as_ref().and_then(|p| fs.call_kinds().get(p.at as usize).cloned());
+                out.sig = Some(("c08:reopen-after-fault-fails".into(), format!("after the fault was removed the database does not open: {e} [the failing call was {:?}; {} writes returned Ok, {} returned an error, a DB::open failed under the fault: {}; last manifest operations: {}]", hit, out.ok_writes, out.err_writes, out.open_failed, lines.join("; "))));
             }
         }
         Ok(Ok(d2)) => {
@@ -451,7 +467,7 @@ fn log_reopen_under_fault(seed: u64, rep: &mut Report) {
         let fs = base.snapshot();
         fs.reset_calls();
         fs.record_calls(true);
-        fs.set_fault(Some(FaultPlan { at, sticky: false }));
+        fs.set_fault(Some(FaultPlan { at, sticky: false, partial: false }));
         let line = format!("c08log seed={seed} at={at}");
         let res = raindb::verif::log_write(fs.dyn_fs(), path, true, &second);
         let fired = fs.faults_fired() > 0;
@@ -476,6 +492,115 @@ fn log_reopen_under_fault(seed: u64, rep: &mut Report) {
     }
 }
 
+/// Directed, replayable fault positions: a small database, one client thread that waits for the
+/// background thread after every call, and a single fault (transient / sticky / transient short
+/// write) at the k-th filesystem call AFTER a fixed prefix of the history; then close, fault removed,
+/// reopen, compare. Because only one thread is active at a time the call positions are reproducible.
+fn directed(seed: u64, rep: &mut Report) {
+    let mut rng = Prng::new(seed);
+    let reuse = rng.chance(1, 2);
+    let cfg = Cfg { memtable: *rng.pick(&[256usize, 1024]), file: 1536, block: 256, reuse, bloom_bits: 10 };
+    let nkeys = rng.range(4, 14);
+    let mode = rng.below(3);
+    // fault-free run to count the calls of the tail (flush + compaction + reopen)
+    let run = |plan: Option<FaultPlan>, k_base: &mut u64| -> (Option<(String, String)>, u64) {
+        let fs = SimFs::new();
+        let mut acked: BTreeMap<Vec<u8>, Vec<u8>> = BTreeMap::new();
+        let mut maybe: Vec<(Vec<u8>, Vec<u8>)> = vec![];
+        let Ok(db) = DB::open(cfg.options(&fs)) else { return (None, 0) };
+        for i in 0..nkeys {
+            let (k, v) = (format!("d{:03}", i).into_bytes(), vec![b'a' + (i % 26) as u8; 90]);
+            if db.put(WriteOptions::default(), k.clone(), v.clone()).is_ok() {
+                acked.insert(k, v);
+            }
+        }
+        settle(&db);
+        fs.reset_calls();
+        *k_base = 0;
+        fs.set_fault(plan.clone());
+        // tail: more writes, a forced flush + compaction, a reopen, more writes
+        let mut db = Some(db);
+        for round in 0..2 {
+            if let Some(d) = db.as_ref() {
+                for i in 0..4u64 {
+                    let (k, v) = (format!("t{round}{:02}", i).into_bytes(), vec![b'A' + (i % 26) as u8; 120]);
+                    match d.put(WriteOptions::default(), k.clone(), v.clone()) {
+                        Ok(()) => {
+                            acked.insert(k, v);
+                        }
+                        Err(_) => maybe.push((k, v)),
+                    }
+                }
+                d.compact_range(None..None);
+                settle(d);
+            }
+            if let Some(old) = db.take() {
+                if std::panic::catch_unwind(std::panic::AssertUnwindSafe(move || drop(old))).is_err() {
+                    return (Some(("c08:close-panics".into(), "closing the database panicked under an injected I/O fault".into())), fs.calls());
+                }
+            }
+            match std::panic::catch_unwind(std::panic::AssertUnwindSafe(|| DB::open(cfg.options(&fs)))) {
+                Err(_) => return (Some(("c08:open-panics".into(), "DB::open panicked under an injected I/O fault".into())), fs.calls()),
+                Ok(Err(_)) => {}
+                Ok(Ok(d)) => {
+                    settle(&d);
+                    db = Some(d);
+                }
+            }
+        }
+        let calls = fs.calls();
+        drop(db.take());
+        fs.set_fault(None);
+        let hit = plan.as_ref().and_then(|p| fs.call_kinds().get(p.at as usize).cloned());
+        let history = || {
+            let ops = fs.oplog();
+            let mut lines: Vec<String> = ops.iter().enumerate().map(|(i, op)| (i, crate::crash::op_desc_pub(&fs, op))).filter(|(_, d)| d.contains("MANIFEST") || d.contains("CURRENT") || d.contains(".dbtemp")).map(|(i, d)| format!("#{i} {d}")).collect();
+            let n = lines.len();
+            if n > 12 {
+                lines = lines.split_off(n - 12);
+            }
+            lines.join("; ")
+        };
+        match std::panic::catch_unwind(std::panic::AssertUnwindSafe(|| DB::open(cfg.options(&fs)))) {
+            Err(_) => (Some(("c08:reopen-after-fault-panics".into(), "reopening after the fault was removed panicked".into())), calls),
+            Ok(Err(e)) => (Some(("c08:reopen-after-fault-fails".into(), format!("after the fault was removed the database does not open: {e} [the failing call was {hit:?}; last manifest operations: {}]", history()))), calls),
+            Ok(Ok(d2)) => {
+                settle(&d2);
+                let got: BTreeMap<Vec<u8>, Vec<u8>> = scan_db(&d2, None).unwrap_or_default().into_iter().collect();
+                let mut sig = None;
+                for (k, v) in &acked {
+                    if got.get(k) != Some(v) && !maybe.iter().any(|(mk, _)| mk == k) {
+                        sig = Some(("c08:acknowledged-write-lost-after-reopen".to_string(), format!("after reopen key {} is {}; its put returned Ok [the failing call was {hit:?}; last manifest operations: {}]", hex(k), if got.contains_key(k) { "different" } else { "missing" }, history())));
+                        break;
+                    }
+                }
+                let _ = std::panic::catch_unwind(std::panic::AssertUnwindSafe(move || drop(d2)));
+                (sig, calls)
+            }
+        }
+    };
+    let mut base = 0u64;
+    let (sig0, ncalls) = run(None, &mut base);
+    if sig0.is_some() || ncalls == 0 {
+        return;
+    }
+    for at in 0..ncalls {
+        let (sticky, partial) = match mode {
+            0 => (false, false),
+            1 => (true, false),
+            _ => (false, true),
+        };
+        let line = format!("c08directed seed={seed} at={at}");
+        let (sig, _) = run(Some(FaultPlan { at, sticky, partial }), &mut base);
+        rep.case(&line, true);
+        rep.count(match mode { 0 => "c08.directed.transient", 1 => "c08.directed.sticky", _ => "c08.directed.transient-short-write" });
+        if let Some((sig, what)) = sig {
+            rep.fail("oracle", &sig, &format!("directed history, fault at filesystem call {at} of {ncalls} after the prefix ({}): {what}", match mode { 0 => "that call only", 1 => "and all later calls", _ => "that call only; a failing write first writes half of its buffer" }), &line);
+            return;
+        }
+    }
+}
+
 pub fn rule() -> &'static str {
     "histories (puts, deletes, batches, fills forcing flushes, gets, scans, manual compactions, reopens) on SimFs with a single injected filesystem failure at call position n of the whole call stream (create, write/append, rename, remove, open-for-read, size, list, lock …), transient (that call) and sticky (that call and all later ones); every position for streams up to the budget, an even sample beyond; then the fault is removed and the database reopened; plus, at log level, a log file re-opened for appending while one call of that session fails (records acknowledged must be readable behind the first session's). Non-trivial = the fault fired and at least one write had been acknowledged before the end; distinct by (history, position, mode)."
 }
@@ -485,6 +610,11 @@ pub fn run(tier: &str, seed: u64, replay: Option<&str>, corpus_dir: &str, shard:
     let mut rep = Report::new("c08", rule());
     let thorough = tier == "thorough";
     if let Some(line) = replay {
+        if line.starts_with("c08directed ") {
+            let s = line.split_whitespace().find_map(|t| t.strip_prefix("seed=")).and_then(|s| s.parse().ok()).unwrap_or(0);
+            directed(s, &mut rep);
+            return rep;
+        }
         if line.starts_with("c08log ") {
             let s = line.split_whitespace().find_map(|t| t.strip_prefix("seed=")).and_then(|s| s.parse().ok()).unwrap_or(0);
             log_reopen_under_fault(s, &mut rep);
@@ -497,18 +627,34 @@ pub fn run(tier: &str, seed: u64, replay: Option<&str>, corpus_dir: &str, shard:
         let get = |name: &str| line.split_whitespace().find_map(|t| t.strip_prefix(&format!("{name}="))).map(|s| s.to_string());
         let at: u64 = get("at").and_then(|s| s.parse().ok()).unwrap_or(0);
         let sticky = get("sticky").map_or(false, |s| s == "1");
+        let partial = get("partial").map_or(false, |s| s == "1");
         // the interleaving with the background thread can shift call positions by a few calls:
         // replay the recorded position and its neighbours
+        // The position of a call in the stream depends on how the background thread interleaves with the
+        // client: replay the recorded position and its neighbours, and, when the case names the call
+        // that was hit (hit=<kind>:<path>), every position nearby at which this run makes that call.
+        let want_hit = get("hit");
+        let mut positions: Vec<i64> = vec![];
+        if let Some(wh) = &want_hit {
+            let probe = run_with_fault(&h, None);
+            let mut cands: Vec<i64> = probe.kinds.iter().enumerate().filter(|(_, (k, p))| &format!("{k}:{p}") == wh).map(|(i, _)| i as i64).collect();
+            cands.sort_by_key(|p| (p - at as i64).abs());
+            positions.extend(cands.into_iter().take(12));
+        }
         for d in [0i64, -1, 1, -2, 2] {
-            let pos = at as i64 + d;
+            if !positions.contains(&(at as i64 + d)) {
+                positions.push(at as i64 + d);
+            }
+        }
+        for pos in positions {
             if pos < 0 {
                 continue;
             }
-            let r = run_with_fault_drv(&h, Some(FaultPlan { at: pos as u64, sticky }), if drv_path != "none" { Some(drv_path) } else { None });
+            let r = run_with_fault_drv(&h, Some(FaultPlan { at: pos as u64, sticky, partial }), if drv_path != "none" { Some(drv_path) } else { None });
             if std::env::var("VERIF_TRACE").is_ok() {
                 eprintln!("fault at {pos} hit {:?}", r.hit);
             }
-            rep.case(&format!("{} at={} sticky={}", h.to_line("c08"), pos, if sticky { 1 } else { 0 }), r.fired > 0);
+            rep.case(&format!("{} at={} sticky={} partial={}", h.to_line("c08"), pos, if sticky { 1 } else { 0 }, if partial { 1 } else { 0 }), r.fired > 0);
             if let Some((sig, what)) = r.sig {
                 rep.fail("oracle", &sig, &what, line);
                 break;
@@ -524,6 +670,14 @@ pub fn run(tier: &str, seed: u64, replay: Option<&str>, corpus_dir: &str, shard:
     }
     let (idx, cnt) = shard.as_ref().map_or((0, 1), |s| (s.index, s.count));
     let shard_opt = shard;
+    let ndir = if thorough { 160 } else { 16 };
+    for i in 0..ndir {
+        let s = rng.next() % 1_000_000_000;
+        if i % cnt == idx {
+            note_progress(&shard_opt, &format!("c08directed seed={s}"));
+            directed(s, &mut rep);
+        }
+    }
     let nlog = if thorough { 4000 } else { 400 };
     for i in 0..nlog {
         let s = rng.next() % 1_000_000_000;
@@ -550,11 +704,13 @@ pub fn run(tier: &str, seed: u64, replay: Option<&str>, corpus_dir: &str, shard:
         let before = rep.failures.len();
         let mut pos = off;
         while pos < ncalls {
-            for sticky in [false, true] {
-                let line = format!("{hline} at={pos} sticky={}", if sticky { 1 } else { 0 });
+            // transient, sticky, and transient with a short write (the failing write call first writes
+            // half of its buffer)
+            for (sticky, partial) in [(false, false), (true, false), (false, true)] {
+                let line = format!("{hline} at={pos} sticky={} partial={}", if sticky { 1 } else { 0 }, if partial { 1 } else { 0 });
                 note_progress(&shard_opt, &line);
                 let use_drv = if drv_path != "none" && (pos / stride) % 4 == 0 { Some(drv_path) } else { None };
-                let r = run_with_fault_drv(h, Some(FaultPlan { at: pos, sticky }), use_drv);
+                let r = run_with_fault_drv(h, Some(FaultPlan { at: pos, sticky, partial }), use_drv);
                 rep.add("c08.completed-operations-checked-by-the-durability-monitor", r.monitored_ops);
                 if r.monitored_ops > 0 {
                     rep.model_requests += 1;
@@ -566,9 +722,13 @@ pub fn run(tier: &str, seed: u64, replay: Option<&str>, corpus_dir: &str, shard:
                 if r.open_failed {
                     rep.count("c08.open-failed-under-fault");
                 }
-                rep.count(if sticky { "c08.mode.sticky" } else { "c08.mode.transient" });
+                rep.count(if sticky { "c08.mode.sticky" } else if partial { "c08.mode.transient-short-write" } else { "c08.mode.transient" });
                 if let Some((sig, what)) = r.sig {
-                    rep.fail("oracle", &sig, &format!("fault at filesystem call {pos} of {ncalls} ({}): {what}", if sticky { "and all later calls" } else { "that call only" }), &line);
+                    let line = match &r.hit {
+                        Some((k, p)) => format!("{line} hit={k}:{p}"),
+                        None => line.clone(),
+                    };
+                    rep.fail("oracle", &sig, &format!("fault at filesystem call {pos} of {ncalls} ({}): {what}", if sticky { "and all later calls" } else if partial { "that call only; a failing write first writes half of its buffer" } else { "that call only" }), &line);
                 }
             }
             if rep.failures.len() > before + 6 {
